@@ -95,7 +95,7 @@ class Engine:
         if extra:
             self.solver.push()
             self.solver.add(*extra)
-            r = self.solver.check()
+            r = hard_check(self.solver, timeout)
             m = None
             if r == z3.sat:
                 try:
@@ -104,7 +104,7 @@ class Engine:
                     m = None
             self.solver.pop()
         else:
-            r = self.solver.check()
+            r = hard_check(self.solver, timeout)
             m = None
             if r == z3.sat:
                 try:
@@ -276,7 +276,7 @@ class Engine:
             s.set("timeout", timeout)
             s.add(*self.assumps)
             s.add(cond)
-            return s.check() == z3.unsat
+            return hard_check(s, timeout) == z3.unsat
         except z3.Z3Exception:
             return False
 
@@ -407,7 +407,7 @@ class Engine:
                     pass
                 s.add(*asserts)
                 s.add(goal)
-                r = s.check()
+                r = hard_check(s, self.prove_timeout)
                 m = s.model() if r == z3.sat else None
             except z3.Z3Exception:
                 r, m = z3.unknown, None
@@ -448,7 +448,7 @@ class Engine:
                 s.add(*asserts)
                 s.add(goal)
                 s.add(*pins)
-                r = s.check()
+                r = hard_check(s, max(2000, self.prove_timeout // 3))
                 m = s.model() if r == z3.sat else None
             except z3.Z3Exception:
                 r, m = z3.unknown, None
@@ -600,7 +600,7 @@ class Engine:
                     return None
                 self.solver.push()
                 self.solver.add(*cons)
-                r = self.solver.check()
+                r = hard_check(self.solver, self.prove_timeout)
                 if r == z3.sat:
                     cur = self.solver.model()
                     pinned += 1
@@ -619,6 +619,46 @@ class Engine:
 
     def _base_scopes(self):
         return 0
+
+    def validation_witness(self):
+        """A concrete input on which this (clean) path was taken, uninterpreted functions pinned to their true
+        values where the pinning pass succeeds: replayed on the real code, every obligation proved here must hold
+        there too -- the encoding checked against what it encodes."""
+        m = None
+        # a witness in general position: the solver's favourite models sit on boundaries (a draw of exactly 0, two
+        # equal coordinates), where exact reals and floats may legitimately take different branches
+        reals = [c for c in self.symbols.values() if c.sort().kind() == z3.Z3_REAL_SORT]
+        for d in self.draws:
+            for x in np.asarray(d["value"], dtype=object).ravel().tolist():
+                if isinstance(x, SR) and z3.is_const(x.e):
+                    reals.append(x.e)
+        reals = reals[:40]
+        m = self.model  # the model the path was steered with, when it is still valid (no new query at the path's end)
+        if m is None:
+            return None
+        # (no extra solver query: a model that happens to be generic is used, the others are passed over)
+        vals = []
+        for c in reals:
+            v = m.eval(c, model_completion=True)
+            if not z3.is_rational_value(v):
+                return None
+            vals.append(Fraction(v.numerator_as_long(), v.denominator_as_long()))
+        if any(v in (0, 1, -1) or abs(v) < Fraction(1, 64) for v in vals) or len(set(vals[:10])) < len(vals[:10]):
+            return None
+        t = time.time()
+        m2 = None
+        if _VALIDATION_SPENT[0] <= 6.0:  # seconds per scenario process for pinning validation witnesses
+            saved = self.prove_timeout
+            self.prove_timeout = min(saved, 1500)
+            try:
+                m2 = self._realize(z3.BoolVal(True), m)
+            finally:
+                self.prove_timeout = saved
+                _VALIDATION_SPENT[0] += time.time() - t
+        w = self.witness(m2 or m)
+        w["realized"] = m2 is not None
+        w["labels"] = sorted({l for l, _ in self.oblig})
+        return w
 
     def witness(self, m, evals=None):
         w = {}
@@ -1529,6 +1569,7 @@ class Result:
         self.tsolve = 0.0
         self.oblig = Counter()
         self.failures = []
+        self.validations = []
         self.inconclusive = []
         self.reached = Counter()
         self.returns = []
@@ -1550,6 +1591,8 @@ class Result:
         for lab, st in p["oblig"]:
             self.oblig[(lab, st)] += 1
         self.failures.extend(p["failures"])
+        if p.get("validation") is not None:
+            self.validations.append(p["validation"])
         self.inconclusive.extend(p["inconclusive"])
         for r in p["reached"]:
             self.reached[r] += 1
@@ -1592,6 +1635,32 @@ def _short(e):
 # Solver budgets are wall-clock (z3's resource limit does not bind inside its nonlinear engine), so a loaded
 # machine would turn decided obligations into `unknown`.  Budgets are therefore stretched by the load factor:
 # 1 on an idle machine, up to 4 when more processes are runnable than there are cores.
+def hard_check(solver, nominal_ms):
+    """solver.check() under a HARD wall-clock limit: z3's own timeout (and its resource limit) are not honoured
+    everywhere inside the nonlinear engine; a timer thread interrupts the context instead (the check then answers
+    `unknown`, reason "interrupted")."""
+    import threading
+
+    limit = nominal_ms / 1000.0 * slack() * 1.5 + 1.0
+    fired = [False]
+
+    def fire():
+        fired[0] = True
+        z3.main_ctx().interrupt()
+
+    t = threading.Timer(limit, fire)
+    t.daemon = True
+    t.start()
+    try:
+        return solver.check()
+    except z3.Z3Exception:
+        if fired[0]:
+            return z3.unknown
+        raise
+    finally:
+        t.cancel()
+
+
 _NCPU = os.cpu_count() or 1
 _SLACK_ENV = os.environ.get("QVERIF_TIMEOUT_SLACK")
 
@@ -1612,6 +1681,8 @@ def slack():
 
 
 _HARNESS = {}
+_VALIDATION_TAKEN = [0]
+_VALIDATION_SPENT = [0.0]
 _WITNESS_SPENT = [0.0]  # seconds this (scenario) process has spent on witness generation
 _TRACE_PREFIX = (os.environ.get("QVERIF_SRC") or "/repo/src").rstrip("/") + "/"
 _seen_code = set()
@@ -1658,9 +1729,18 @@ def _run_one(fn, prefix, opts):
         status, detail = "error", "RecursionError"
     except Exception as ex:  # a harness bug or an undeclared exception of the code under test
         status, detail = "error", f"{type(ex).__name__}: {ex} @ {_where()}"
+    vw = None
+    try:
+        if status == "ok" and not eng.failures and not eng.inconclusive and eng.oblig and opts.get("validate_paths") and _VALIDATION_TAKEN[0] < int(opts.get("validate_paths")):
+            vw = eng.validation_witness()
+            if vw is not None:
+                _VALIDATION_TAKEN[0] += 1
+    except (PathAbort, BoundHit, Unsupported, z3.Z3Exception):
+        vw = None
     finally:
         Engine.cur = None
     return {
+        "validation": vw,
         "status": status,
         "detail": detail,
         "ret": ret,
